@@ -10,6 +10,7 @@ import (
 	"github.com/alpacahq/marketstore/v4/utils/io"
 	"github.com/alpacahq/marketstore/v4/verif/mc"
 	"github.com/alpacahq/marketstore/v4/verif/rt/vos"
+	"github.com/alpacahq/marketstore/v4/verif/rt/vrt"
 	"github.com/alpacahq/marketstore/v4/verif/world"
 )
 
@@ -58,11 +59,71 @@ func init() {
 		Level: "model_checking",
 		Rule: "explicit-state breadth-first search: keys {A/1Min/X, A/1Min/Y, A/1H/X, B/1Min/X} x operations {create with schema 1|2, write a row of year 2021|2022, destroy, query}; " +
 			"state = canonical (year files and header schema per bucket on the device, catalog listing); successors by replaying the operation sequence on a fresh server plus one operation; depth <=3 (thorough <=5) with de-duplication by canonical state; " +
-			"in every state: catalog listing = device scan = listing of a freshly loaded catalog on the same root, and every existing bucket can be queried. non-trivial = sequences of >=2 operations",
+			"in every state: catalog listing = device scan = listing of a freshly loaded catalog on the same root, and every existing bucket can be queried. " +
+			"concurrent part: three thread sets of catalog operations (create || write-new-year; + destroy; destroy || query || create) on the real catalog, ALL interleavings with <=2 deviations (thorough 3), same invariant on the end state. non-trivial = sequences of >=2 operations / schedules with >=1 deviation",
 		Assume:   []string{"UTC", "BackgroundSync=false", "states merged by canonical form have the same futures: the canonical form holds everything the operations read (files, headers, catalog tree)"},
 		Shards:   1,
 		QuickMax: 6 * time.Minute, ThorMax: 30 * time.Minute,
-	}, c17Enum, c17Run)
+	}, func(c *mc.Ctx, yield func(schedSpec)) {
+		c17Enum(c, func(s c17Spec) { yield(schedSpec{Scen: -1, Prefix: s.Seq, Single: true}) })
+		schedEnum(c17Scens, func(c *mc.Ctx, si int) int {
+			if c.Thorough() {
+				return 3
+			}
+			return 2
+		})(c, yield)
+	}, func(c *mc.Ctx, s schedSpec) {
+		if s.Scen < 0 {
+			c17Run(c, c17Spec{Seq: s.Prefix})
+			return
+		}
+		schedRun(c17Scens, "C17")(c, s)
+	})
+}
+
+// ---- concurrent part: catalog operations interleaved under the controlled scheduler ----
+
+func c17ConcScenario(name string, ops []c17Op) *scenario {
+	return &scenario{
+		name: name,
+		body: func(x *execCtx) {
+			vrt.Branching(false)
+			w, obs := world.Start(world.Config{BackgroundSync: false})
+			if !obs.OK() {
+				x.failed = "startup: " + obs.String()
+				return
+			}
+			// initial state: A/1Min/X (year 2021) and A/1H/X exist
+			c17Apply(w, c17Op{"write1", "A/1Min/X"})
+			c17Apply(w, c17Op{"write1", "A/1H/X"})
+			vrt.Branching(true)
+			var ths []*vrt.Thread
+			for i, op := range ops {
+				op := op
+				ths = append(ths, vrt.Spawn(fmt.Sprintf("T%d:%s", i+1, op.kind), func() { c17Apply(w, op) }))
+			}
+			vrt.Join(ths...)
+			vrt.Branching(false)
+			sig, what := c17Invariant(w, c17Op{"concurrent", ""})
+			x.data["sig"], x.data["what"] = sig, what
+			x.data["canon"] = c17Canon(w)
+			x.note("end state %s", x.data["canon"])
+		},
+		judge: func(x *execCtx, sch *vrt.Sched) []mc.Violation {
+			sig, _ := x.data["sig"].(string)
+			x.data["outcome"] = fmt.Sprint(sig, "|", mc.Hash(x.data["canon"])%1000)
+			if sig != "" {
+				return []mc.Violation{{Sig: strings.TrimSuffix(sig, "|concurrent") + "|concurrent:" + name, What: fmt.Sprint(x.data["what"])}}
+			}
+			return nil
+		},
+	}
+}
+
+var c17Scens = []*scenario{
+	c17ConcScenario("create A/1Min/Y || write A/1Min/X into a new year", []c17Op{{"create1", "A/1Min/Y"}, {"write2", "A/1Min/X"}}),
+	c17ConcScenario("create A/1Min/Y || write new year || destroy A/1H/X", []c17Op{{"create1", "A/1Min/Y"}, {"write2", "A/1Min/X"}, {"destroy", "A/1H/X"}}),
+	c17ConcScenario("destroy A/1H/X || query A/1H/X || create B/1Min/X", []c17Op{{"destroy", "A/1H/X"}, {"query", "A/1H/X"}, {"create2", "B/1Min/X"}}),
 }
 
 func c17Enum(c *mc.Ctx, yield func(c17Spec)) {
